@@ -162,7 +162,7 @@ def run(tier):
         for v in rep["v"]:
             if not v["o"].startswith("C13_"):
                 continue
-            if v["o"] == "C13_OnlySilentPeer":
+            if v["o"] in ("C13_OnlySilentPeer", "C13_SilentPeerDetected"):
                 # timing observer: must reproduce twice more
                 again = 0
                 for a in range(2):
